@@ -48,8 +48,14 @@ def main():
         out['demo_mutant_tail'] = o.strip().splitlines()[-3:]
         from_props = props or [f"C{i:02d}" for i in range(1, 20)]
         alarms, errors = {}, {}
-        for p in from_props:
+        from concurrent.futures import ThreadPoolExecutor
+
+        def one(p):
             rc, o = run([os.path.join(VERIF, 'check'), p, '--repo', tree], cwd=VERIF, env={'PSA_NO_EVIDENCE': '1'})
+            return p, rc, o
+        with ThreadPoolExecutor(max_workers=6) as ex:
+            results = list(ex.map(one, from_props))
+        for p, rc, o in results:
             if rc == 1:
                 lines = [l.strip() for l in o.splitlines() if l.startswith('  pyplate')]
                 alarms[p] = [l[:260] for l in lines[:3]]
